@@ -152,9 +152,10 @@ def run(ctx):
         dy = rng.choice(dyad + [0.05]) if rng.random() < 0.85 else rng.choice([0.1, 0.3])
         if fam == 'decimal':
             dy = rng.choice([0.1, 0.2, 0.05, 0.3, 0.25])
-        dz = rng.choice([1.0, 0.5, 0.25, 0.125, 0.0625, 0.05, 0.1])
-        x_max = None if rng.random() < 0.7 else int(pts[-1, 0]) + rng.randrange(0, 50)
-        y_range = None if rng.random() < 0.7 else [1.0, 0.0]
+        dz = rng.choice([1.0, 0.5, 0.25, 0.125, 0.0625, 0.05, 0.1, 2.0, 4.0])
+        # overrides: any positive x_max (also below the point count / below the x extent), any y range [max, min] with max > min
+        x_max = None if rng.random() < 0.7 else rng.choice([int(pts[-1, 0]) + rng.randrange(0, 50), max(2, n // 2), max(2, int(pts[-1, 0]) // 3), 10 * n])
+        y_range = None if rng.random() < 0.7 else rng.choice([[1.0, 0.0], [1.0, 0.0], [0.875, 0.125], [2.0, 0.0], [0.5, 0.25]])
         if rng.random() < 0.2:
             # very small miss ratios: the y separation is dy TIMES THE Y RANGE, never an absolute quantity
             pts = pts.copy()
